@@ -23,7 +23,7 @@ CHECKS = {
         text="Contract-style oracle on every transform_circuit/transform call made by a workload that covers every component constructor, "
              "edge values, list positions, ground placement and frequency classes: branch id multiset, terminal order, reference node and the "
              "element's Z/Y/V/I (via the element protocol) are compared with an independent component table; periodic sources against the "
-             "true Fourier coefficient of their own time function.",
+             "true Fourier coefficient of their own time function, up to radio-frequency fundamentals and zero resolution (gating judged at float spacing).",
         design='5/C07', technique='postcondition oracle on observed transformations vs independent component table'),
     'C08': dict(
         text="Runtime oracle on the harmonic classes: amplitude/phase/a/b/c of orders 0..40 and random orders up to 600 are compared with a "
@@ -76,7 +76,7 @@ CHECKS = {
              "matched as clusters against an independently computed set, every spectral line and the time functions on a grid are compared with "
              "exact single-frequency reference phasors (periodic sources through the true Fourier coefficients of their own waveform); KCL at every "
              "instant, additivity over sources and waveform reproduction (Parseval tail bound) are monitored; strata with exact and rounding-only "
-             "frequency coincidences; the frequency_components -> transform -> solver pipeline is also run with non-default resolutions.",
+             "frequency coincidences; the frequency_components -> transform -> solver pipeline is also run with non-default resolutions; radio-frequency fundamentals and fundamentals below the resolution (the latter a recorded known finding).",
         design='5/C09', technique='runtime oracle vs exact per-frequency references + trace relations on time functions'),
     'C18': dict(
         text="Runtime oracle on str(ScientificFloat)/str(ScientificComplex)/Display.print_*: an independent exact-decimal parser recovers sign, "
@@ -96,13 +96,13 @@ CHECKS = {
              "every position (all ordered pairs for duplicate ids, every insertion position for a second ground, every sign-checked parameter of "
              "every constructor, every required field of every loader entry, unknown types, unknown ids against all six solution kinds) and the "
              "call must raise; the unfaulted base and the boundary value 0 must be accepted and stored unaltered. The fault space per base is "
-             "enumerated completely; the bases are sampled.",
+             "enumerated completely; the bases are sampled. Annotations of unknown names in declarative descriptions must be refused or left out, foreign schemdraw parts in a drawing refused.",
         design='5/C19', technique='fault injection with a raise/no-raise monitor at the constructor, loader and query boundary'),
     'C20': dict(
         text="Offline history checker: every result observed in random call histories (80-240 calls, repeats, interleavings) over a pool of shared "
              "networks, circuits, documents, keep lists, value dictionaries, input dictionaries and arrays is compared with the result of the same "
              "(operation, description) computed in two fresh interpreters in opposite order; deep fingerprints of all argument objects before/after "
-             "each call and of every mutable default / module-level table of the repository modules along the history.",
+             "each call and of every mutable default / module-level table of the repository modules along the history; arrays returned by spectrum, time-function and transient queries are overwritten by the caller and the queries repeated.",
         design='5/C20', technique='recorded call histories checked against fresh-interpreter baselines + before/after fingerprint sentinels'),
     'C13': dict(
         text="Runtime oracle on circuit_translator / SchematicDiagramParser: drawing programs (embedded random circuits, wire trees, labels, ground, "
@@ -115,13 +115,13 @@ CHECKS = {
         text="Runtime oracle on SchematicDiagramSolution.draw_voltage/current/power/potential through all four adapters and on the label symbols that "
              "create_schematic appends: the label text is parsed back by the independent decimal parser (real, Cartesian, polar rad/deg, A cos/sin(wt+phi), "
              "power arrows) and compared with the exact solution of the netlist the drawing depicts, in the translated component's direction, "
-             "negated iff reverse, to half a unit of the displayed precision.",
+             "negated iff reverse, to half a unit of the displayed precision; a potential label must sit on the node symbol it was asked for (also nodes placed with hold()).",
         design='5/C14', technique='runtime oracle: parsed label text vs exact solution of the depicted netlist'),
     'C15': dict(
         text="Round-trip monitor: generated drawings of the persistable symbol set are serialised to JSON (text or file) and reloaded 1-5 times; after "
              "every cycle the translated circuit is compared with the original (ids, kinds, value dictionaries, terminal order, node bijection, "
              "ground); declarative element lists over the handler table with directions, lengths and place_after chains are compared with the "
-             "equivalent programmatic construction.",
+             "equivalent programmatic construction; reloaded drawings are rendered before they are read.",
         design='5/C15', technique='round-trip/equivalence monitor over observed translations before and after save/load'),
 }
 
